@@ -61,7 +61,7 @@ func runFDWiring(c *core.Ctx) {
 		ast.Inspect(fn.Body(), func(m ast.Node) bool {
 			if r, isR := m.(*ast.ReturnStmt); isR && len(r.Results) == 1 {
 				n++
-				if an.SelectedField(info, r.Results[0]) != stateF {
+				if an.SelectedField(info, an.ResolveLocal(info, fn.Body(), r.Results[0])) != stateF {
 					okRet = false
 				}
 			}
